@@ -34,14 +34,21 @@ META = {
     "fields, and the submission outcome (ValueError, no body run, no job directory) vs model vs independent Python oracle.",
     "note": "Trusted: Lean kernel; hand-written model of _rule_violations/Requirement.satisfied (tied by the exhaustive-per-task "
     "correspondence); AST extractor for the call-site order (source order is taken as evaluation order; conditionals are marked "
-    "'guarded'); parsing of the violation messages into (kind, field names).  Lazy (workflow) values and readonly/path_template "
-    "fields are outside the generator; ShellTask's extra argstr-template checks are not modelled (generated argstrs are plain).",
+    "'guarded'); parsing of the violation messages into (kind, field names).  Outside the property's quantifier but modelled "
+    "(Val.lazy, Field.exempt, Field.optFileset; documented by C31_lazy_field_skipped, C31_lazy_behaviour, "
+    "C31_exempt_unset_triggers, C31_optfileset_true) and exercised in two fidelity streams that compare implementation, model "
+    "and a Python transcription of C31_code_exact: readonly inputs and optional outargs with a path template (shell), and "
+    "workflow node inputs connected to an upstream output (checked at Workflow.construct, before any node runs).  "
+    "ShellTask's extra argstr-template checks are not modelled (generated argstrs are plain).",
     "rule": "case = (task definition, assignment of one of ≤ 3 domain values to every field); all assignments of every generated "
     "definition are explored; distinct by canonical JSON of (fields, rules, groups, assignment); non-trivial = the definition has "
-    "at least one requirement set or exclusive group",
+    "at least one requirement set or exclusive group.  Fidelity streams (counted in the same totals, labelled stream=ext / "
+    "stream=lazy in the distribution): all assignments of definitions with readonly / optional-outarg fields; assignments with "
+    "one or two lazy fields",
     "assumptions": [
         "xor groups are frozensets (no duplicate member) and requirement names refer to fields (enforced by Task._check_arg_refs)",
-        "values are resolved (no lazy fields): Job.__init__ calls _check_resolved first",
+        "the property is claimed for resolved values of optional/bool/str fields (its quantifier); lazy values, readonly and "
+        "path_template fields are modelled and compared with the code's documented clause-wise behaviour only",
     ],
     "trusted": ["model of Task._rule_violations / Requirement.satisfied written by hand (Rules/Model.lean)"],
 }
@@ -63,6 +70,10 @@ OBLIGATIONS = [
         "C31_bool_false_rejected",
         "C31_full_statement_fails",
         "C31_no_uniform_notion",
+        "C31_lazy_field_skipped",
+        "C31_lazy_behaviour",
+        "C31_exempt_unset_triggers",
+        "C31_optfileset_true",
         "CallSites.C31_before_execution",
         "CallSites.C31_before_execution_meaning",
         "CallSites.checkedBefore_spec",
@@ -101,6 +112,44 @@ def oracle(d: dict, eff: dict) -> bool:
     return True
 
 
+def oracle_code(d: dict, eff: dict) -> bool:
+    """Outside the quantifier (lazy values, readonly / path_template fields): what the code documents, clause by clause —
+    the statement of C31_code_exact transcribed independently of the Lean model.  Used only for the fidelity streams."""
+    kinds = {f["name"]: f["kind"] for f in d["fields"]}
+
+    def unset(v):
+        return isinstance(v, str) and v == R.UNSET
+
+    def lazy(v):
+        return isinstance(v, str) and v == R.LAZY
+
+    def triggers(f, v):  # the field's own requirements are looked at
+        return not (lazy(v) or v is None or v is False or (f["kind"] == "outopt" and v is True))
+
+    def present(n):  # a required field counts as given
+        v = eff[n]
+        return not (v is None or (kinds[n] == "bool" and v is False))
+
+    def allowed(n, al):
+        v = eff[n]
+        return al is None or (isinstance(v, str) and not unset(v) and not lazy(v) and v in al)
+
+    def truthy(v):
+        return lazy(v) or (not unset(v) and bool(v))
+
+    for f in d["fields"]:
+        v = eff[f["name"]]
+        if unset(v) and f["kind"] not in R.EXT_KINDS:
+            return False
+        if triggers(f, v) and f["requires"] and not any(all(present(n) and allowed(n, al) for n, al in rs) for rs in f["requires"]):
+            return False
+    for g in d["xor"]:
+        k = sum(1 for n in g if n is not None and truthy(eff[n]))
+        if k > 1 or (k == 0 and None not in g):
+            return False
+    return True
+
+
 def match_D51(d: dict, eff: dict) -> bool:
     """some member of an exclusive group holds the empty string"""
     return any(n is not None and eff[n] == "" for g in d["xor"] for n in g)
@@ -118,7 +167,11 @@ def match_D52(d: dict, eff: dict) -> bool:
 
 
 def enc(v):
-    return {"unset": True} if v == R.UNSET else v
+    if isinstance(v, str) and v == R.UNSET:
+        return {"unset": True}
+    if isinstance(v, str) and v == R.LAZY:
+        return {"lazy": True}
+    return v
 
 
 def model_query(d: dict, effs: list[dict]) -> dict:
@@ -214,6 +267,74 @@ def run_defs(ctx, defs: list[dict], *, only: dict | None = None, accepted_probes
             )
 
 
+def run_fidelity_defs(ctx, defs: list[dict], *, only: dict | None = None):
+    """Streams outside the property's quantifier — `stream: "ext"` (readonly inputs, optional outargs with a path
+    template: model flags exempt / optFileset) and `stream: "lazy"` (workflow node inputs connected to an upstream
+    output).  Implementation vs model vs `oracle_code`; violating assignments are also submitted (must raise before any
+    body runs)."""
+    moddir = ctx.scratch / "mods"
+    marker = ctx.scratch / "marker_f.txt"
+    work = []
+    for d in defs:
+        cls = R.build(d, moddir)
+        if d["stream"] == "lazy":
+            asgs = [only] if only is not None else R.lazy_assignments(ctx.rng, d, ctx.pick(60, 200))
+            if not asgs:
+                continue
+            mod = R.lazy_module(d, cls, moddir)
+            viols = R.lazy_violations(mod, d, asgs)
+        else:
+            asgs = [only] if only is not None else R.assignments(d)
+            viols = [R.canon_violations(R.instantiate(cls, a)._rule_violations()) for a in asgs]
+        effs = [R.effective(d, a) for a in asgs]
+        impls = []
+        n_probe = 0
+        for i, (a, viol) in enumerate(zip(asgs, viols)):
+            probe = None
+            if viol and (n_probe < ctx.pick(4, 30) or only is not None):
+                n_probe += 1
+                root = ctx.scratch / "cache_f" / f"{d['name']}_{i}"
+                if d["stream"] == "lazy":
+                    probe = R.lazy_submission(mod, d, a, root, marker)
+                else:
+                    p = R.probe_submission(cls, a, root, HOWS[i % 3], marker)
+                    probe = {"exc": p["exc"], "ran": p["ran"] or p["jobdir"]}
+                ctx.count(f"submit:{d['stream']}")
+            impls.append({"viol": viol, "submit": probe})
+        work.append((d, asgs, effs, impls))
+        ctx.count(f"stream={d['stream']}")
+        for f in d["fields"]:
+            if f["kind"] in R.EXT_KINDS:
+                ctx.count(f"kind={f['kind']}")
+    ans = ctx.driver("Rules", [model_query(d, effs) for d, _, effs, _ in work])
+    for k, (d, asgs, effs, impls) in enumerate(work):
+        m = ans[k] if ans is not None else None
+        if m is not None and ("error" in m or not m.get("wf")):
+            ctx.tie_broken.append({"kind": "model-driver", "detail": f"definition rejected by the model: {json.dumps(m)[:300]}"})
+            m = None
+        cd = R.canon_def(d)
+        for j, (a, eff, impl) in enumerate(zip(asgs, effs, impls)):
+            want = oracle_code(d, eff)
+            spec_ok = (not impl["viol"]) == want
+            if impl["submit"] is not None:
+                spec_ok = spec_ok and impl["submit"] == {"exc": "ValueError", "ran": False}
+            model = None
+            if m is not None:
+                mv = canon_model_viol(m["results"][j]["viol"])
+                model = {"viol": mv, "submit": ({"exc": "ValueError", "ran": False} if mv else {"exc": None, "ran": True}) if impl["submit"] is not None else None}
+            ctx.count(f"outcome[{d['stream']}]:" + ("+".join(sorted({v[0] for v in impl["viol"]})) or "accepted"))
+            ctx.judge(
+                {"def": d, "assignment": a, "stream": d["stream"]},
+                impl,
+                model,
+                spec_ok,
+                nontrivial=True,
+                defect=None,
+                key=json.dumps([d["stream"], cd, eff], sort_keys=True),
+                what=f"_rule_violations / submission ({d['stream']} stream, outside the quantifier)",
+            )
+
+
 # --------------------------------------------------------------------------------------------------
 # corpus: witnesses of the known findings (mirrors of the Lean witness theorems)
 
@@ -286,16 +407,30 @@ def gen_defs(ctx, n: int, tag: str) -> list[dict]:
     return out
 
 
+def gen_fidelity_defs(ctx, n_ext: int, n_lazy: int, tag: str) -> list[dict]:
+    out = [R.gen_ext_def(ctx.rng, f"E{tag}_{ctx.seed}_{i}") for i in range(n_ext)]
+    for i in range(n_lazy):
+        d = R.gen_rules_def(ctx.rng, "python" if ctx.rng.random() < 0.5 else "shell", f"L{tag}_{ctx.seed}_{i}", empty_p=0.1)
+        d["stream"] = "lazy"
+        out.append(d)
+    return out
+
+
 def correspondence(ctx):
     core.assert_repo_loaded()
     corpus(ctx)
-    run_defs(ctx, gen_defs(ctx, ctx.pick(36, 420), "c"))
+    run_defs(ctx, gen_defs(ctx, ctx.pick(26, 400), "c"))
+    run_fidelity_defs(ctx, gen_fidelity_defs(ctx, ctx.pick(6, 60), ctx.pick(8, 80), "f"))
 
 
 def search(ctx):
     run_defs(ctx, gen_defs(ctx, ctx.pick(80, 400), "s"), accepted_probes=2)
+    run_fidelity_defs(ctx, gen_fidelity_defs(ctx, ctx.pick(10, 40), ctx.pick(10, 40), "t"))
 
 
 def replay(ctx, rec):
     check_findings(ctx)
-    run_defs(ctx, [rec["case"]["def"]], only=rec["case"]["assignment"])
+    if rec["case"].get("stream") in ("ext", "lazy"):
+        run_fidelity_defs(ctx, [rec["case"]["def"]], only=rec["case"]["assignment"])
+    else:
+        run_defs(ctx, [rec["case"]["def"]], only=rec["case"]["assignment"])
